@@ -224,6 +224,9 @@ type leaseOut struct {
 	m6      *dhcpv6.Message
 	errText string
 	endT    int64
+	// the lease handed to Renew was changed by the call (its Offer/ACK now point
+	// elsewhere or print differently, or the returned lease is the very same object)
+	leaseTouched string
 }
 
 func (sc leaseScenario) isDefaultSrv() bool {
@@ -273,7 +276,21 @@ func leaseDo4(sc leaseScenario, conn net.PacketConn, out *leaseOut) {
 	case "reqoffer":
 		setLease(c.RequestFromOffer(ctx, parsePktSemi(sc.offer), mods...))
 	case "renew":
-		setLease(c.Renew(ctx, &nclient4.Lease{Offer: parsePktSemi(sc.offer), ACK: parsePktSemi(sc.ack)}, mods...))
+		// "an ACK yields a lease made of that very offer and ACK": the lease a caller
+		// holds stays what it was when it is renewed (seeded change C13-5: Renew
+		// rewriting the lease it was given and returning the same pointer)
+		in := &nclient4.Lease{Offer: parsePktSemi(sc.offer), ACK: parsePktSemi(sc.ack)}
+		o0, a0, os0, as0 := in.Offer, in.ACK, showPkt4(in.Offer), showPkt4(in.ACK)
+		nl, err := c.Renew(ctx, in, mods...)
+		switch {
+		case in.Offer != o0 || in.ACK != a0:
+			out.leaseTouched = "Renew replaced the Offer/ACK of the lease it was given"
+		case showPkt4(in.Offer) != os0 || showPkt4(in.ACK) != as0:
+			out.leaseTouched = "Renew changed the packets of the lease it was given"
+		case err == nil && nl == in:
+			out.leaseTouched = "Renew returned the very lease object it was given"
+		}
+		setLease(nl, err)
 	case "release":
 		if err := c.Release(&nclient4.Lease{Offer: parsePktSemi(sc.offer), ACK: parsePktSemi(sc.ack)}, mods...); err != nil {
 			setErr(err)
